@@ -327,8 +327,8 @@ def main():
         rp = json.load(open(replay))
         f = os.path.join(rundir, "replay.txt")
         if "program" in rp:
-            # re-execute the recorded program on the current implementation
-            open(os.path.join(rundir, "prog.txt"), "w").write(rp["program"])
+            # re-execute the recorded (shrunk, when available) program on the current implementation
+            open(os.path.join(rundir, "prog.txt"), "w").write(rp.get("shrunk_program") or rp["program"])
             rc, out = sh([hexe, "-suite", suite, "-replay", os.path.join(rundir, "prog.txt"), "-out", f], env=GOENV, timeout=600)
             if rc != 0:
                 print(out)
@@ -441,7 +441,17 @@ def main():
         seen_clause[clause] = seen_clause.get(clause, 0) + 1
         # shrink: cut the case after the failing operation
         idx = int(F[0][1])
+        prog0 = program_of(cut_case(text, idx))
+        try:
+            msuite = [m for (o_, f_, m) in files if o_ == origin][0]
+            gsuite = {m_: g_ for (g_, m_, _s) in ([(suite, suite, 1.0)] + [tuple(x) for x in cfg.get("extra_runs", [])])}.get(msuite, suite)
+            small = shrink(hexe, gsuite, msuite, prog0, clause, rundir)
+        except Exception as ex:   # shrinking is best effort
+            small, msuite = prog0, suite
+            notes.append("shrinking failed: %r" % (ex,))
         add_violation("%d-%s-%s-%d" % (seed, origin.replace(":", "_"), cid, idx), {
+            "shrunk_program": small,
+            "shrunk_readable": [" ".join(dec(x) for x in l.split()) for l in small.splitlines()],
             "property": pid, "suite": suite, "origin": origin, "case_id": cid, "failing_op_index": idx,
             "falsified_clauses": sorted(set(dec(l[2]) for l in F)),
             "model_disagreements": [[dec(x) for x in l] for l in M][:5],
@@ -590,6 +600,47 @@ def main_conc(pid, tier, replay, seed):
         print("VIOLATION property=%s replay=%s%s" % (pid, path, tail))
     print("%s %s: %d/%d obligations, %d requests under the race detector, %.1fs" % (pid, tier, evidence["coverage"]["discharged"], obligations, served, time.time() - t0))
     return 1 if violations else 0
+
+
+def shrink(hexe, gen_suite, model_suite, program, clause, rundir, budget=120):
+    """Delta-debugging over the operations of a failing program: drop operations (never the cfg line, never
+    the last one) as long as the same clause is still falsified when the program is re-executed on the
+    implementation and re-judged by the extracted oracle."""
+    lines = [l for l in program.splitlines(True) if l.startswith("O ")]
+    if len(lines) <= 2:
+        return program
+
+    def fails(ls):
+        pf = os.path.join(rundir, "shrink.prog")
+        of = os.path.join(rundir, "shrink.txt")
+        open(pf, "w").write("".join(ls))
+        rc, _ = sh([hexe, "-suite", gen_suite, "-replay", pf, "-out", of], env=GOENV, timeout=120)
+        if rc != 0 or not os.path.exists(of):
+            return False
+        rc, res, _ = run_driver(model_suite, of)
+        for cid, ls_ in res.items():
+            for l in ls_:
+                if l[0] == "F" and dec(l[2]) == clause:
+                    return True
+        return False
+
+    first = 1 if lines[0].split()[1:2] == ["cfg"] else 0
+    chunk = max(1, (len(lines) - first - 1) // 2)
+    steps = 0
+    while chunk >= 1 and steps < budget:
+        i = first
+        changed = False
+        while i < len(lines) - 1 and steps < budget:
+            cand = lines[:i] + lines[min(i + chunk, len(lines) - 1):]
+            steps += 1
+            if len(cand) < len(lines) and fails(cand):
+                lines = cand
+                changed = True
+            else:
+                i += chunk
+        if not changed:
+            chunk //= 2
+    return "".join(lines)
 
 
 def cut_case(text, idx):
